@@ -62,7 +62,7 @@ func (a *QueryAuthorizer) AuthorizeQuery(u User, q *influxql.Query, database str
 		// Check each statement in the query.
 		for _, stmt := range q.Statements {
 			// Get the privileges required to execute the statement.
-			privs, err := stmt.RequiredPrivileges()
+			privs, err := statementPrivileges(stmt)
 			if err != nil {
 				return nil, err
 			}
@@ -107,6 +107,63 @@ func (a *QueryAuthorizer) AuthorizeQuery(u User, q *influxql.Query, database str
 		Database: database,
 		Message:  fmt.Sprintf("Invalid OSS user type %T", u),
 	}
+}
+
+// statementPrivileges returns the privileges required to execute stmt: those the
+// statement reports plus, for SHOW statements that are executed over their sources,
+// read access to every database these sources resolve to.
+func statementPrivileges(stmt influxql.Statement) (influxql.ExecutionPrivileges, error) {
+	privs, err := stmt.RequiredPrivileges()
+	if err != nil {
+		return nil, err
+	}
+	return append(privs, showReadPrivileges(stmt)...), nil
+}
+
+// showReadPrivileges returns the read privileges for the databases a SHOW statement that
+// is rewritten into a SELECT over its sources (or answered from the statement's database)
+// reads when it is executed. RequiredPrivileges names only the ON clause for SHOW FIELD
+// KEYS, SHOW SERIES and the estimated cardinalities, although a source may name another
+// database, and only the sources for the exact cardinalities, although a source without a
+// database (or no source at all) reads the database of the ON clause. An empty name stands
+// for the default database of the request.
+func showReadPrivileges(stmt influxql.Statement) influxql.ExecutionPrivileges {
+	var database string
+	var sources influxql.Sources
+	switch s := stmt.(type) {
+	case *influxql.ShowFieldKeysStatement:
+		database, sources = s.Database, s.Sources
+	case *influxql.ShowSeriesStatement:
+		database, sources = s.Database, s.Sources
+	case *influxql.ShowSeriesCardinalityStatement:
+		database, sources = s.Database, s.Sources
+	case *influxql.ShowMeasurementCardinalityStatement:
+		database, sources = s.Database, s.Sources
+	case *influxql.ShowTagKeyCardinalityStatement:
+		database, sources = s.Database, s.Sources
+	case *influxql.ShowTagValuesCardinalityStatement:
+		database, sources = s.Database, s.Sources
+	case *influxql.ShowFieldKeyCardinalityStatement:
+		database, sources = s.Database, s.Sources
+	default:
+		return nil
+	}
+
+	if len(sources) == 0 {
+		return influxql.ExecutionPrivileges{{Name: database, Privilege: influxql.ReadPrivilege}}
+	}
+
+	var privs influxql.ExecutionPrivileges
+	for _, source := range sources {
+		if m, ok := source.(*influxql.Measurement); ok {
+			name := m.Database
+			if name == "" {
+				name = database
+			}
+			privs = append(privs, influxql.ExecutionPrivilege{Name: name, Privilege: influxql.ReadPrivilege})
+		}
+	}
+	return privs
 }
 
 func (a *QueryAuthorizer) AuthorizeDatabase(u User, priv influxql.Privilege, database string) error {
